@@ -2,6 +2,8 @@ package rules
 
 import (
 	"go/types"
+	"runtime"
+	"sync"
 
 	"verif/wscheck/internal/fold"
 )
@@ -20,4 +22,21 @@ func intName(v fold.Val) string {
 		return i.Name
 	}
 	return ""
+}
+
+// parallel runs fn(0..n-1) on all cores.
+func parallel(n int, fn func(i int)) {
+	var wg sync.WaitGroup
+	sem := make(chan struct{}, runtime.NumCPU())
+	for i := 0; i < n; i++ {
+		i := i
+		wg.Add(1)
+		sem <- struct{}{}
+		go func() {
+			defer wg.Done()
+			defer func() { <-sem }()
+			fn(i)
+		}()
+	}
+	wg.Wait()
 }
